@@ -67,14 +67,17 @@ func next(name string) uint64 {
 	return v
 }
 
-func U8(name string) uint8   { return uint8(next(name)) }
-func U16(name string) uint16 { return uint16(next(name)) }
-func U32(name string) uint32 { return uint32(next(name)) }
-func I32(name string) int32  { return int32(uint32(next(name))) }
-func U64(name string) uint64 { return next(name) }
-func I64(name string) int64  { return int64(next(name)) }
-func Bool(name string) bool  { return next(name) == 1 }
-func Choice(n int) int       { return int(next("choice")) }
+func U8(name string) uint8              { return uint8(next(name)) }
+func U16(name string) uint16            { return uint16(next(name)) }
+func U32(name string) uint32            { return uint32(next(name)) }
+func I32(name string) int32             { return int32(uint32(next(name))) }
+func U64(name string) uint64            { return next(name) }
+func I64(name string) int64             { return int64(next(name)) }
+func Bool(name string) bool             { return next(name) == 1 }
+func U64n(name string, bits int) uint64 { return next(name) }
+func I64n(name string, bits int) int64  { return int64(next(name)) }
+func U32n(name string, bits int) uint32 { return uint32(next(name)) }
+func Choice(n int) int                  { return int(next("choice")) }
 func F64(name string) float64 {
 	return math.Float64frombits(next(name))
 }
